@@ -109,14 +109,29 @@ impl<'a> Machine<'a> {
     pub fn fresh_bound(&self, pk: bool) -> f64 {
         let n = self.n();
         let switched = pk && self.kit.levels[0].prev_context_data().is_some();
-        let b = fresh_noise_bound(n, pk) + if switched { modswitch_bound(n) + 1.0 } else { 0.0 };
+        // a public-key encryption under a special prime p is made one level up and switched down: its error is divided by p
+        // (then below 1 for every p the generators produce that exceeds the bound) and the rounding of the switch is added
+        let b = if switched { let p = *self.kit.key_qs().last().unwrap() as f64; (fresh_noise_bound(n, pk) / p).ceil() + modswitch_bound(n) + 1.0 } else { fresh_noise_bound(n, pk) };
         if self.bfv { b + 1.0 } else { self.t() as f64 * (b + 2.0) }
     }
 
     /// encrypt a plaintext polynomial (coefficients < t) and add it to the pool
     pub fn fresh(&mut self, coeffs: &[u64], pk: bool) -> Result<usize, Panicked> {
         let p = self.kit.plain_from_coeffs(coeffs);
-        let ct = lib(|| if pk { self.kit.enc.encrypt_new(&p) } else { let mut c = Ciphertext::new(); self.kit.enc.encrypt_symmetric(&p, &mut c); c })?;
+        // the encryptor entry point varies from call to call (value-returning / destination / caller-supplied u sampler / seeded)
+        let k = crate::rt::case_tick();
+        let blake = || { use rand::SeedableRng; let mut seed = [0u8; 64]; for i in 0..8 { let w = k.wrapping_mul(0x9e37_79b9_7f4a_7c15).wrapping_add(i as u64 * 0x1234_5678_9abc_def1) | 1; seed[i * 8..i * 8 + 8].copy_from_slice(&w.to_le_bytes()); } heathcliff::util::BlakeRNG::from_seed(heathcliff::util::PRNGSeed(seed)) };
+        let kit = self.kit;
+        let ct = lib(|| if pk { match k % 4 {
+                0 => kit.enc.encrypt_new(&p),
+                1 => { let mut d = dirty(kit); kit.enc.encrypt(&p, &mut d); d }
+                2 => { let mut g = blake(); kit.enc.encrypt_new_with_u_prng(&p, &mut g) }
+                _ => { let mut g = blake(); let mut d = Ciphertext::new(); kit.enc.encrypt_with_u_prng(&p, &mut g, &mut d); d }
+            } } else { match k % 3 {
+                0 => { let mut c = Ciphertext::new(); kit.enc.encrypt_symmetric(&p, &mut c); c }
+                1 => { let mut g = blake(); let mut d = dirty(kit); kit.enc.encrypt_symmetric_with_u_prng(&p, &mut g, &mut d); d }
+                _ => { let c = kit.enc.encrypt_symmetric_new(&p); if c.contains_seed() { c.expand_seed(&kit.ctx) } else { c } }
+            } })?;
         let mut m = coeffs.to_vec(); m.resize(self.n(), 0);
         let e = self.fresh_bound(pk);
         let mut el = Elem { ct, m, e_an: e, e_step: Some(e), e_meas: None, level: 0, origin: format!("fresh_{}", if pk { "pk" } else { "sk" }) };
